@@ -23,7 +23,7 @@ CLAIM = dict(
           'sign, integer casts, arg-reductions) and no operation whose derivative is not finite at admissible inputs (norm, sqrt, fractional power, inverse '
           'trigonometric functions, log) outside a reasoned allow-table; static factors that multiply traced values are made finite before the product (reciprocal '
           'Laplacian eigenvalues are zeroed at l = 0 and on the padding) and the numpy inverse is taken only behind the Tracer guard; the checkpointed sub-scan '
-          'captures only non-traced objects and passes exactly (carry, slice). Does not decide agreement of JVP with finite differences, JVP/VJP adjointness '
+          'captures only non-traced objects and passes exactly (carry, slice). Also decided: no data-dependent branching primitive (lax.cond / switch / while_loop with a predicate computed from the state) sits on a data path — only the taken branch is differentiated. Does not decide agreement of JVP with finite differences, JVP/VJP adjointness '
           '(a property of jax itself for traceable code) or finiteness at every state numerically.'),
     note=('jax primitives used on data paths are differentiable with finite derivatives at admissible inputs; allow-table entries (with reasons) are in rules/c08.py. '
           'A cross-reference list of `where(c, a/b, …)` patterns is printed as NOTE only.'),
